@@ -4,7 +4,7 @@ import "testing"
 
 func TestParse(t *testing.T) {
 	valid := map[string]int{"[]": 0, " [ ] ": 0, "[1]": 1, "[1, 1.0]": 2, `["a", "A"]`: 2, "[true,false,null]": 3,
-		"[1 // c\n]": 1, "[ // c\n1]": 1, "[1 /* c */, 2]": 2, "[1] // c": 1, "[1] /* c */\n": 1, "[-0, 0]": 2, "[\n1,\n2\n]\n": 2, `["a\"b"]`: 1, `["A"]`: 1}
+		"[1 // c\n]": 1, "[ // c\n1]": 1, "[1 /* c */, 2]": 2, "[1] // c": 1, "[1] /* c */\n": 1, "[-0, 0]": 2, "[\n1,\n2\n]\n": 2, `["a\"b"]`: 1, `["A"]`: 1, "[1 /**/]": 1, "[1, /*\n*/ 2]": 2}
 	for s, n := range valid {
 		r := Parse(s)
 		if !r.Valid || len(r.Items) != n || r.Unsettled != "" {
@@ -18,7 +18,7 @@ func TestParse(t *testing.T) {
 			t.Errorf("%q accepted: %+v", s, r)
 		}
 	}
-	for _, s := range []string{"// c\n[1]", "[1] /* c", "[1 //\n]", "[1 /**/]"} {
+	for _, s := range []string{"// c\n[1]", "[1] /* c", "[1 //\n]"} {
 		if r := Parse(s); r.Unsettled == "" {
 			t.Errorf("%q should be unsettled: %+v", s, r)
 		}
